@@ -476,6 +476,9 @@ func c12Import(run *ev.Run, chain *allChain, seed string, mode importMode, state
 			}
 		}
 		run.Count("queries-compared", int64(len(calls)))
+		if diffs == 0 {
+			c12Probes(run, chain, b, mode, m, ctxA, ctxB)
+		}
 	}
 	run.Sample("import:"+tag+":"+mode.Only, map[string]any{"mode": mode.Name, "isolated_module": mode.Only, "source_height": a.Height, "imported_at_height": height})
 }
